@@ -293,48 +293,57 @@ func (d *c06DB) StoreKeys(ctx context.Context, res map[gmsl.PublicKeyLookupReque
 	return nil
 }
 
+func c06VerifyImpl(args [][]byte) ([][]byte, []byte) {
+	flag, ver, ev, lk, mode := string(args[0]), string(args[1]), args[2], string(args[3]), string(args[4])
+	untrusted := strings.HasSuffix(flag, "+u")
+	final := append([][]byte{}, args...)
+	final[0] = B(strings.TrimSuffix(flag, "+u"))
+	e, verImpl, err := c06Parse(ver, ev, untrusted)
+	if err != nil {
+		return final, B("noparse")
+	}
+	final[2] = e.JSON()
+	v := &c06Verifier{valid: map[string]bool{}, fail: mode != "ok"}
+	for _, s := range args[5:] {
+		v.valid[string(s)] = true
+	}
+	outcome := "unused"
+	verr := gmsl.VerifyEventSignatures(context.Background(), e, v, c06Lookup(lk, &outcome))
+	// VerifyAllEventSignatures must give the same verdict for the event, in its position
+	v2 := &c06Verifier{valid: v.valid, fail: v.fail}
+	o2 := ""
+	all := gmsl.VerifyAllEventSignatures(context.Background(), []gmsl.PDU{e, e}, v2, c06Lookup(lk, &o2))
+	if outcome == "unused" {
+		// the sender was never resolved: tell the model what the function WOULD have answered
+		_, _ = c06Lookup(lk, &outcome)(spec.RoomID{}, e.SenderID())
+	}
+	final[3] = B(outcome)
+	out := c06Verdict(verr)
+	if len(all) != 2 || (all[0] == nil) != (verr == nil) || (all[1] == nil) != (verr == nil) {
+		out += " ALL-DIFFERS"
+	}
+	want, rerr := verImpl.RedactEventJSON(e.JSON())
+	if rerr != nil {
+		want = nil
+	}
+	if len(v.calls) == 0 {
+		out += "\nnocall"
+	}
+	for _, call := range v.calls {
+		out += "\n" + c06FmtCall(call, want)
+	}
+	return final, B(out)
+}
+
 func init() {
 	// [flag (wf|any, +u = parse as untrusted); ver; event json; lookup; mode (ok|verr); valid servers...]
-	RegisterImpl("C06.verify", func(args [][]byte) ([][]byte, []byte) {
-		flag, ver, ev, lk, mode := string(args[0]), string(args[1]), args[2], string(args[3]), string(args[4])
-		untrusted := strings.HasSuffix(flag, "+u")
-		final := append([][]byte{}, args...)
-		final[0] = B(strings.TrimSuffix(flag, "+u"))
-		e, verImpl, err := c06Parse(ver, ev, untrusted)
-		if err != nil {
-			return final, B("noparse")
-		}
-		final[2] = e.JSON()
-		v := &c06Verifier{valid: map[string]bool{}, fail: mode != "ok"}
-		for _, s := range args[5:] {
-			v.valid[string(s)] = true
-		}
-		outcome := "unused"
-		verr := gmsl.VerifyEventSignatures(context.Background(), e, v, c06Lookup(lk, &outcome))
-		// VerifyAllEventSignatures must give the same verdict for the event, in its position
-		v2 := &c06Verifier{valid: v.valid, fail: v.fail}
-		o2 := ""
-		all := gmsl.VerifyAllEventSignatures(context.Background(), []gmsl.PDU{e, e}, v2, c06Lookup(lk, &o2))
-		if outcome == "unused" {
-			// the sender was never resolved: tell the model what the function WOULD have answered
-			_, _ = c06Lookup(lk, &outcome)(spec.RoomID{}, e.SenderID())
-		}
-		final[3] = B(outcome)
-		out := c06Verdict(verr)
-		if len(all) != 2 || (all[0] == nil) != (verr == nil) || (all[1] == nil) != (verr == nil) {
-			out += " ALL-DIFFERS"
-		}
-		want, rerr := verImpl.RedactEventJSON(e.JSON())
-		if rerr != nil {
-			want = nil
-		}
-		if len(v.calls) == 0 {
-			out += "\nnocall"
-		}
-		for _, call := range v.calls {
-			out += "\n" + c06FmtCall(call, want)
-		}
-		return final, B(out)
+	RegisterImpl("C06.verify", c06VerifyImpl)
+	// [ver; event json; twin json (only the oracle looks at it); lookup; mode; valid servers...]
+	RegisterImpl("C06.verify_twin", func(args [][]byte) ([][]byte, []byte) {
+		inner := append([][]byte{B("any"), args[0], args[1]}, args[3:]...)
+		fin, out := c06VerifyImpl(inner)
+		final := append([][]byte{fin[1], fin[2], args[2]}, fin[3:]...)
+		return final, out
 	})
 
 	// [flag; ver; event json (template, signatures are replaced); lookup; tsmode (past|future); server=kind ...]
@@ -643,6 +652,53 @@ func genC06(c *Ctx) {
 	c06GenMalformed(c)
 	c06GenKeyring(c)
 	c06GenPseudo(c)
+	c06GenTwin(c)
+}
+
+// E. twins: the same well-formed event with one more content member under a name the specification
+// does not know; the required servers must not change.  Names that encoding/json folds onto
+// "membership" (U+017F for s) do change them: recorded finding.
+func c06GenTwin(c *Ctx) {
+	d := [4]string{"a.example", "b.example", "c.example", "d.example"}
+	type extra struct{ key, val string }
+	extras := []extra{
+		{"member\u017fhip", "leave"}, {"member\u017fhip", "invite"}, {"member\u017fhip", "join"},
+		{"Membership", "leave"}, {"MEMBERSHIP", "invite"}, {"membershi", "invite"}, {"membershipp", "join"},
+		{"membership ", "invite"}, {"join_authorised_via_users_server ", "@zed:z.example"}, {"Join_Authorised_Via_Users_Server", "@zed:z.example"},
+	}
+	for _, ver := range c06Versions {
+		for _, k := range c06Kinds {
+			t := k.mk(d)
+			if t.typ != "m.room.member" {
+				continue
+			}
+			t.ts = 1700000000777
+			t.eventID = "$tw:" + d[1]
+			twin := c06JSON(t.toMap(ver))
+			for _, ex := range extras {
+				m := t.toMap(ver)
+				cont := map[string]interface{}{}
+				for kk, vv := range m["content"].(map[string]interface{}) {
+					cont[kk] = vv
+				}
+				cont[ex.key] = ex.val
+				m["content"] = cont
+				ev := c06JSON(m)
+				if _, _, err := c06Parse(ver, ev, false); err != nil {
+					c.Count("skipped: event does not parse")
+					continue
+				}
+				for _, valid := range [][]string{{"a.example", "b.example", "c.example", "d.example"}, {"a.example", "b.example"}, {"a.example", "b.example", "d.example"}} {
+					args := [][]byte{B(ver), ev, twin, B("real"), B("ok")}
+					for _, s := range valid {
+						args = append(args, B(s))
+					}
+					c.Run("C06.verify_twin", args, "C06.verify_twin", "C06.prop.twin", fmt.Sprintf("twin v=%s kind=%s extra=%q:%q", ver, k.name, ex.key, ex.val))
+					c.Count("twin/" + strconv.Quote(ex.key))
+				}
+			}
+		}
+	}
 }
 
 // A. well-formed events, scripted verifier: version x kind x domain pattern x every subset of the
@@ -837,7 +893,10 @@ func c06GenMalformed(c *Ctx) {
 		{"ts-missing", func(m map[string]interface{}) []byte { delete(m, "origin_server_ts"); return raw(m) }},
 		{"ts-null", func(m map[string]interface{}) []byte { m["origin_server_ts"] = nil; return raw(m) }},
 		{"ts-zero", func(m map[string]interface{}) []byte { m["origin_server_ts"] = 0; return raw(m) }},
-		{"ts-max", func(m map[string]interface{}) []byte { m["origin_server_ts"] = uint64(18446744073709551615); return raw(m) }},
+		{"ts-max", func(m map[string]interface{}) []byte {
+			m["origin_server_ts"] = uint64(18446744073709551615)
+			return raw(m)
+		}},
 		{"ts-dup", func(m map[string]interface{}) []byte { return appendTop(raw(m), `"origin_server_ts":5`) }},
 	}
 	lookups := []string{"real", "=E", "=N", "=Dother.example"}
@@ -845,7 +904,7 @@ func c06GenMalformed(c *Ctx) {
 	for vi, ver := range c06Versions {
 		for ki, k := range c06Kinds {
 			for mi, ml := range mals {
-				if !c.Thorough() && (vi+ki+mi)%3 != 0 && ml.name != "plain" {
+				if !c.Thorough() && (vi+ki+mi)%4 != 0 && ml.name != "plain" {
 					continue
 				}
 				t := k.mk(d)
